@@ -1,0 +1,174 @@
+//! Read-only hooks for external runtime monitoring (cargo feature `verif`, off by default).
+//!
+//! Nothing in this module changes the behaviour of the interpreter. It
+//!  - re-exports items that are already `pub` inside private modules, so that an external
+//!    harness can *name* the types it observes (syntax tree, typed tree, units, values),
+//!  - offers accessors to the state of a [`Context`] at quiescent points, and
+//!  - provides a thread-local event sink the VM writes to while tracing is switched on.
+
+use std::cell::RefCell;
+
+use compact_str::CompactString;
+
+use crate::Context;
+
+pub mod ast {
+    pub use crate::ast::*;
+}
+
+pub mod typed_ast {
+    pub use crate::typed_ast::*;
+}
+
+pub mod parser {
+    pub use crate::parser::{ParseError, ParseErrorKind, parse};
+}
+
+pub mod types {
+    pub use crate::type_variable::TypeVariable;
+    pub use crate::typechecker::qualified_type::{Bound, Bounds, QualifiedType};
+    pub use crate::typechecker::type_scheme::TypeScheme;
+}
+
+pub use crate::arithmetic::{Exponent, Rational};
+pub use crate::decorator::Decorator;
+pub use crate::number::Number;
+pub use crate::prefix::Prefix;
+pub use crate::prefix_parser::{AcceptsPrefix, PrefixParserResult};
+pub use crate::quantity::{Quantity, QuantityError};
+pub use crate::span::{ByteIndex, Span};
+pub use crate::unit::{BaseUnitAndFactor, Unit, UnitFactor, UnitIdentifier};
+pub use crate::unit_registry::{UnitMetadata, UnitRegistryError};
+pub use crate::value::{FunctionReference, Value};
+
+/// Something the VM did while tracing was on. Values are clones.
+#[derive(Debug, Clone)]
+pub enum Event {
+    /// Result of `+ - * / ^ ->` (and unary minus), with the span the instruction was compiled with.
+    OpResult {
+        op: &'static str,
+        span: Span,
+        depth: usize,
+        value: Value,
+    },
+    /// A numbat-level function is entered. `span` is the span of the call instruction in the caller.
+    Call {
+        callee: CompactString,
+        span: Span,
+        depth: usize,
+        args: Vec<Value>,
+    },
+    /// A numbat-level function returns to the call instruction at `span`.
+    Return {
+        callee: CompactString,
+        span: Span,
+        depth: usize,
+        value: Value,
+    },
+    /// A foreign function returned `value` to the call instruction at `span`.
+    FfiReturn {
+        callee: CompactString,
+        span: Span,
+        depth: usize,
+        value: Value,
+    },
+    /// The byte about to be decoded as an opcode is not a valid discriminant.
+    InvalidOpcode { chunk: usize, ip: usize, byte: u8 },
+}
+
+/// Upper bound on the number of recorded events per trace (the rest is only counted).
+pub const MAX_EVENTS: usize = 20_000;
+
+thread_local! {
+    static TRACE: RefCell<Option<Vec<Event>>> = const { RefCell::new(None) };
+    static DROPPED: RefCell<u64> = const { RefCell::new(0) };
+    static OPCODES: RefCell<[u64; 256]> = const { RefCell::new([0; 256]) };
+}
+
+/// Switch tracing on for the current thread (discarding a previous trace).
+pub fn start_trace() {
+    TRACE.with(|t| *t.borrow_mut() = Some(Vec::new()));
+    DROPPED.with(|d| *d.borrow_mut() = 0);
+}
+
+/// Switch tracing off and return the recorded events and the number of dropped ones.
+pub fn take_trace() -> (Vec<Event>, u64) {
+    let events = TRACE.with(|t| t.borrow_mut().take()).unwrap_or_default();
+    let dropped = DROPPED.with(|d| std::mem::take(&mut *d.borrow_mut()));
+    (events, dropped)
+}
+
+pub fn tracing() -> bool {
+    TRACE.with(|t| t.borrow().is_some())
+}
+
+pub(crate) fn emit(make: impl FnOnce() -> Event) {
+    TRACE.with(|t| {
+        if let Some(events) = t.borrow_mut().as_mut() {
+            if events.len() < MAX_EVENTS {
+                events.push(make());
+            } else {
+                DROPPED.with(|d| *d.borrow_mut() += 1);
+            }
+        }
+    });
+}
+
+/// Called by the VM for every byte it is about to decode as an opcode.
+pub(crate) fn on_fetch(byte: u8, max_valid: u8, chunk: usize, ip: usize) {
+    OPCODES.with(|o| o.borrow_mut()[byte as usize] += 1);
+    if byte > max_valid {
+        emit(|| Event::InvalidOpcode { chunk, ip, byte });
+        panic!("verif: invalid opcode byte {byte} in chunk {chunk} at ip {ip}");
+    }
+}
+
+/// Histogram (opcode byte -> number of fetches) since the last call, for the current thread.
+pub fn take_opcode_histogram() -> Vec<(u8, u64)> {
+    OPCODES.with(|o| {
+        let mut o = o.borrow_mut();
+        let res = o
+            .iter()
+            .enumerate()
+            .filter(|(_, n)| **n > 0)
+            .map(|(b, n)| (b as u8, *n))
+            .collect();
+        *o = [0; 256];
+        res
+    })
+}
+
+pub fn opcode_name(byte: u8) -> Option<&'static str> {
+    crate::vm::verif_opcode_name(byte)
+}
+
+/// The raw (unsimplified) value bound to the innermost global binding called `name`.
+pub fn raw_global<'a>(ctx: &'a Context, name: &str) -> Option<&'a Value> {
+    ctx.interpreter.verif_global(name)
+}
+
+/// Number of global bindings known to the compiler.
+pub fn num_globals(ctx: &Context) -> usize {
+    ctx.interpreter.verif_num_globals()
+}
+
+/// (VM stack depth, number of call frames, length of the main chunk, number of constants)
+pub fn vm_digest(ctx: &Context) -> (usize, usize, usize, usize) {
+    let vm = ctx.interpreter.verif_vm();
+    (
+        vm.verif_stack().len(),
+        vm.verif_num_frames(),
+        vm.verif_chunk_len(0),
+        vm.constants.len(),
+    )
+}
+
+/// What the session's prefix parser makes of an identifier.
+pub fn resolve_identifier<'a>(ctx: &Context, identifier: &'a str) -> PrefixParserResult<'a> {
+    ctx.prefix_transformer.prefix_parser.parse(identifier)
+}
+
+/// The unit value bound to a unit name (carries the direct definition of a derived unit).
+pub fn unit_constant<'a>(ctx: &'a Context, unit_name: &str) -> Option<&'a Unit> {
+    ctx.interpreter.get_defining_unit(unit_name)
+}
